@@ -3,7 +3,12 @@
 import sys, json, os, re
 name, pid, needs, summary = sys.argv[1:5]
 d = '/verif/seeded/' + name
-run = dict(l.strip().split(': ', 1) for l in open(d + '/run.txt') if ': ' in l)
+lines = [l.strip() for l in open(d + '/run.txt') if ': ' in l]
+run = dict(l.split(': ', 1) for l in lines if not l.startswith('note: '))
+notes = []
+for l in lines:
+    if l.startswith('note: ') and l[6:] not in notes:
+        notes.append(l[6:])
 checks = {}
 for tok in run.get('checks', '').split():
     c, rc, fi = tok.split(':')
@@ -16,5 +21,7 @@ meta = {'seed': name, 'property_broken': pid, 'summary': summary, 'needs_to_mani
         'what_i_ran': 'tools/seed_eval.sh: git -C /repo apply patch.diff; ./check <id> --tier quick; git -C /repo checkout -- .',
         'checks_run_against_patched_repo': checks,
         'caught_by': [c for c, v in checks.items() if v['exit'] == 1 and v['violation_lines_with_failing_input'] > 0]}
+if notes:
+    meta['history'] = notes
 json.dump(meta, open(d + '/meta.json', 'w'), indent=1)
 print(json.dumps(meta['caught_by']), name)
